@@ -72,13 +72,30 @@ theorem recv_back {T F : Nat} {r : Ratchet} {g : Nat} (h1 : ¬ TooFar F r g) (h2
 
 /-- `A` = the generations accepted so far.  Every accepted generation lies below the head; a generation
     within `T` of the head still has its key material iff it was not accepted. -/
+def headOf : List Nat → Nat
+  | [] => 0
+  | a :: A => max (headOf A) (a + 1)
+
+theorem lt_headOf {A : List Nat} {a : Nat} (h : a ∈ A) : a < headOf A := by
+  induction A with
+  | nil => cases h
+  | cons b t ih =>
+    simp only [List.mem_cons] at h
+    simp only [headOf]
+    rcases h with rfl | h
+    · omega
+    · have := ih h; omega
+
 structure Inv (T : Nat) (r : Ratchet) (A : List Nat) : Prop where
   bound : r.head ≤ u32Max
-  lt : ∀ a ∈ A, a < r.head
+  hd : r.head = headOf A
   slot : ∀ x, x < r.head → r.head - x ≤ T → r.past[r.head - x - 1]? = some (decide (x ∉ A))
 
+theorem Inv.lt {T : Nat} {r : Ratchet} {A : List Nat} (inv : Inv T r A) : ∀ a ∈ A, a < r.head := by
+  intro a ha; rw [inv.hd]; exact lt_headOf ha
+
 theorem inv_new (T : Nat) : Inv T Ratchet.new [] :=
-  ⟨by simp [Ratchet.new, u32Max], by simp, by intro x hx; simp [Ratchet.new] at hx⟩
+  ⟨by simp [Ratchet.new, u32Max], by simp [Ratchet.new, headOf], by intro x hx; simp [Ratchet.new] at hx⟩
 
 /-- what one offer does, given the invariant -/
 theorem recv_spec {T F : Nat} {r : Ratchet} {A : List Nat} (inv : Inv T r A) (g : Nat) :
@@ -105,11 +122,7 @@ theorem recv_spec {T F : Nat} {r : Ratchet} {A : List Nat} (inv : Inv T r A) (g 
       have hnl : ¬ g < r.head := by omega
       refine ⟨fun _ => ⟨hA, ⟨by simp only; omega, ?_, ?_⟩, by simp only; omega⟩, by simp, by simp, by simp,
               by simp [h1, h2, h4', hA], by simp [hnl]⟩
-      · intro a ha
-        simp only [List.mem_cons] at ha
-        rcases ha with rfl | ha
-        · simp
-        · have := inv.lt a ha; simp only; omega
+      · simp only [headOf, ← inv.hd]; omega
       · intro x hx hT
         simp only at hx hT ⊢
         have hi : g + 1 - x - 1 < T := by omega
@@ -141,11 +154,7 @@ theorem recv_spec {T F : Nat} {r : Ratchet} {A : List Nat} (inv : Inv T r A) (g 
     · rw [show decide (g ∉ A) = true from by simp [hA]]
       refine ⟨fun _ => ⟨hA, ⟨inv.bound, ?_, ?_⟩, by simp only; omega⟩, by simp, by simp, by simp,
               by simp [h1, h2, hg32, hA], by simp [hA]⟩
-      · intro a ha
-        simp only [List.mem_cons] at ha
-        rcases ha with rfl | ha
-        · exact hlt
-        · exact inv.lt a ha
+      · simp only [headOf, ← inv.hd]; omega
       · intro x hx hxT
         simp only at hx hxT ⊢
         rw [getElem?_setFalse]
@@ -187,5 +196,316 @@ theorem run_inv {T F : Nat} (l : List Nat) {r : Ratchet} {A : List Nat} (inv : I
       have e := recv_refused_same inv h
       rw [e]
       exact ih inv
+
+/-- no generation is accepted twice, and none that was accepted before the run -/
+theorem acceptedGens_nodup {T F : Nat} (l : List Nat) {r : Ratchet} {A : List Nat} (inv : Inv T r A) :
+    (acceptedGens T F r l).Nodup ∧ ∀ x ∈ acceptedGens T F r l, x ∉ A := by
+  induction l generalizing r A with
+  | nil => simp [acceptedGens]
+  | cons g l ih =>
+    rw [acceptedGens_cons]
+    by_cases h : (recv T F r g).2 = .accepted
+    · rw [if_pos h]
+      obtain ⟨hg, inv'⟩ := recv_accepted_inv inv h
+      obtain ⟨nd, nA⟩ := ih inv'
+      refine ⟨List.nodup_cons.mpr ⟨fun hm => ?_, nd⟩, ?_⟩
+      · exact nA g hm (by simp)
+      · intro x hx
+        simp only [List.mem_cons] at hx
+        rcases hx with rfl | hx
+        · exact hg
+        · exact fun hxa => nA x hx (by simp [hxa])
+    · rw [if_neg h, recv_refused_same inv h]
+      exact ih inv
+
+/-- inside the windows every offer of a not yet accepted generation is accepted -/
+theorem run_inside {T F : Nat} (l : List Nat) {r : Ratchet} {A : List Nat} (inv : Inv T r A)
+    (hn : l.Nodup) (hA : ∀ x ∈ l, x ∉ A) (hw : inWin T F r.head l = true) :
+    (run T F r l).2 = l.map (fun _ => Verdict.accepted) ∧ acceptedGens T F r l = l := by
+  induction l generalizing r A with
+  | nil => simp [run, acceptedGens]
+  | cons g l ih =>
+    simp only [inWin, Bool.and_eq_true, decide_eq_true_eq] at hw
+    obtain ⟨⟨⟨h1, h2⟩, h3⟩, h4⟩ := hw
+    have hnd := List.nodup_cons.mp hn
+    have sp := recv_spec (F := F) inv g
+    have hacc : (recv T F r g).2 = .accepted := by
+      rw [sp.2.2.2.2.1]
+      refine ⟨?_, ?_, h3, hA g (by simp)⟩
+      · unfold TooFar; omega
+      · unfold TooOld; omega
+    obtain ⟨_, inv', hh⟩ := sp.1 hacc
+    have := ih inv' hnd.2 (by
+      intro x hx hm
+      simp only [List.mem_cons] at hm
+      rcases hm with rfl | hm
+      · exact hnd.1 hx
+      · exact hA x (by simp [hx]) hm) (by rw [hh]; exact h4)
+    rw [run_cons, acceptedGens_cons, if_pos hacc, this.1, this.2, hacc]
+    simp
+
+/-! ### a larger tolerance / forward distance -/
+
+/-- the ratchet under the smaller tolerance is the one under the larger tolerance with a shorter queue -/
+def Sim (T : Nat) (r r' : Ratchet) : Prop := r.head = r'.head ∧ r.past = r'.past.take T
+
+theorem take_append_take (a b : List Bool) (n : Nat) : (a ++ b.take n).take n = (a ++ b).take n := by
+  rw [List.take_append, List.take_append, List.take_take]
+  congr 2
+  omega
+
+theorem setFalse_take (l : List Bool) (i n : Nat) : (setFalse i l).take n = setFalse i (l.take n) := by
+  apply List.ext_getElem?
+  intro k
+  rw [List.getElem?_take, getElem?_setFalse, getElem?_setFalse, List.getElem?_take]
+  by_cases e : k = i
+  · subst e
+    by_cases h : k < n <;> simp [h]
+  · by_cases h : k < n <;> simp [h, e]
+
+theorem setFalse_take_ge (l : List Bool) (i n : Nat) (h : n ≤ i) : (setFalse i l).take n = l.take n := by
+  apply List.ext_getElem?
+  intro k
+  rw [List.getElem?_take, getElem?_setFalse, List.getElem?_take]
+  by_cases hk : k < n
+  · have : ¬ k = i := by omega
+    simp [hk, this]
+  · simp [hk]
+
+theorem sim_step {T T' F F' : Nat} (hT : T ≤ T') (hF : F ≤ F') {r r' : Ratchet} (sim : Sim T r r') (g : Nat)
+    (hfar : TooFar F r g → TooFar F' r' g) :
+    Sim T (recv T F r g).1 (recv T' F' r' g).1 ∧
+    ((recv T F r g).2 = .accepted → (recv T' F' r' g).2 = .accepted) := by
+  obtain ⟨hh, hp⟩ := sim
+  by_cases f' : TooFar F' r' g
+  · have f : TooFar F r g := by unfold TooFar at f' ⊢; omega
+    rw [recv_tooFar f, recv_tooFar f']
+    exact ⟨⟨hh, hp⟩, by simp⟩
+  have f : ¬ TooFar F r g := fun h => f' (hfar h)
+  by_cases o' : TooOld T' r' g
+  · have o : TooOld T r g := by unfold TooOld at o' ⊢; omega
+    rw [recv_tooOld f o, recv_tooOld f' o']
+    exact ⟨⟨hh, hp⟩, by simp⟩
+  by_cases o : TooOld T r g
+  · rw [recv_tooOld f o]
+    have hlt : ¬ g ≥ r'.head := by unfold TooOld at o; omega
+    rw [recv_back f' o' hlt]
+    refine ⟨?_, by simp⟩
+    unfold takePast
+    have hi : T ≤ r'.head - g - 1 := by unfold TooOld at o; omega
+    split
+    · exact ⟨hh, hp⟩
+    · exact ⟨hh, by simp only; rw [setFalse_take_ge _ _ _ hi]; exact hp⟩
+    · exact ⟨hh, hp⟩
+  by_cases hge : g ≥ r.head
+  · have hge' : g ≥ r'.head := by omega
+    by_cases hl : g ≥ u32Max
+    · rw [recv_long f o hge hl, recv_long f' o' hge' hl]
+      exact ⟨⟨hh, hp⟩, by simp⟩
+    · rw [recv_fwd f o hge hl, recv_fwd f' o' hge' hl]
+      refine ⟨⟨rfl, ?_⟩, by simp⟩
+      simp only
+      rw [hp, hh, List.take_take, Nat.min_eq_left hT]
+      have := take_append_take (false :: List.replicate (g - r'.head) true) r'.past T
+      simpa using this
+  · have hge' : ¬ g ≥ r'.head := by omega
+    rw [recv_back f o hge, recv_back f' o' hge']
+    unfold takePast
+    have hi : r.head - g - 1 < T := by unfold TooOld at o; omega
+    have hlook : r.past[r.head - g - 1]? = r'.past[r'.head - g - 1]? := by
+      rw [hp, hh, List.getElem?_take]; rw [hh] at hi; simp [hi]
+    rw [hlook]
+    split
+    · exact ⟨⟨hh, hp⟩, by simp⟩
+    · refine ⟨⟨hh, ?_⟩, by simp⟩
+      simp only
+      rw [hp, hh, setFalse_take]
+    · exact ⟨⟨hh, hp⟩, by simp⟩
+
+/-- along the run under the smaller windows, an offer that is too far ahead for `F` is also too far ahead for `F'` -/
+def farOK (T F F' : Nat) : Ratchet → List Nat → Prop
+  | _, [] => True
+  | r, g :: l => (TooFar F r g → TooFar F' r g) ∧ farOK T F F' (recv T F r g).1 l
+
+theorem sim_run {T T' F F' : Nat} (hT : T ≤ T') (hF : F ≤ F') (l : List Nat) {r r' : Ratchet} (sim : Sim T r r')
+    (hfar : farOK T F F' r l) :
+    ∀ i : Nat, (run T F r l).2[i]? = some Verdict.accepted → (run T' F' r' l).2[i]? = some Verdict.accepted := by
+  induction l generalizing r r' with
+  | nil => intro i h; simp [run] at h
+  | cons g l ih =>
+    obtain ⟨h1, h2⟩ := hfar
+    have hfar' : TooFar F r g → TooFar F' r' g := by
+      intro h; have := h1 h; unfold TooFar at this ⊢; rw [← sim.1]; exact this
+    obtain ⟨s', a⟩ := sim_step hT hF sim g hfar'
+    intro i h
+    rw [run_cons] at h ⊢
+    cases i with
+    | zero =>
+      simp only [List.getElem?_cons_zero, Option.some.injEq] at h ⊢
+      exact a h
+    | succ i =>
+      simp only [List.getElem?_cons_succ] at h ⊢
+      exact ih s' h2 i h
+
+theorem farOK_same (T F : Nat) (r : Ratchet) (l : List Nat) : farOK T F F r l := by
+  induction l generalizing r with
+  | nil => trivial
+  | cons g l ih => exact ⟨id, ih _⟩
+
+theorem farOK_of_none {T F F' : Nat} (l : List Nat) {r : Ratchet} (h : Verdict.tooFarAhead ∉ (run T F r l).2) :
+    farOK T F F' r l := by
+  induction l generalizing r with
+  | nil => trivial
+  | cons g l ih =>
+    rw [run_cons] at h
+    simp only [List.mem_cons, not_or] at h
+    refine ⟨fun hf => ?_, ih h.2⟩
+    rw [recv_tooFar hf] at h
+    exact absurd rfl h.1
+
+theorem inWin_mono {T T' F F' : Nat} (hT : T ≤ T') (hF : F ≤ F') (h : Nat) (l : List Nat)
+    (hw : inWin T F h l = true) : inWin T' F' h l = true := by
+  induction l generalizing h with
+  | nil => rfl
+  | cons g l ih =>
+    simp only [inWin, Bool.and_eq_true, decide_eq_true_eq] at hw ⊢
+    obtain ⟨⟨⟨h1, h2⟩, h3⟩, h4⟩ := hw
+    exact ⟨⟨⟨by omega, by omega⟩, h3⟩, ih _ h4⟩
+
+/-! ### association lists and the message-secrets store -/
+
+theorem tlookup_none_iff {α : Type} (k : Nat) (l : List (Nat × α)) : tlookup k l = none ↔ k ∉ l.map Prod.fst := by
+  induction l with
+  | nil => simp [tlookup]
+  | cons p t ih =>
+    obtain ⟨k', v⟩ := p
+    by_cases e : k' = k
+    · simp [tlookup, e]
+    · have : ¬ k = k' := fun h => e h.symm
+      simp [tlookup, e, ih, this]
+
+theorem tlookup_tinsert_self {α : Type} (k : Nat) (v : α) (l : List (Nat × α)) : tlookup k (tinsert k v l) = some v := by
+  induction l with
+  | nil => simp [tinsert, tlookup]
+  | cons p t ih =>
+    obtain ⟨k', v'⟩ := p
+    by_cases e : k' = k
+    · simp [tinsert, tlookup, e]
+    · simp [tinsert, tlookup, e, ih]
+
+theorem tlookup_tinsert_ne {α : Type} {k k' : Nat} (h : k' ≠ k) (v : α) (l : List (Nat × α)) :
+    tlookup k' (tinsert k v l) = tlookup k' l := by
+  have hk : ¬ k = k' := fun e => h e.symm
+  induction l with
+  | nil => simp [tinsert, tlookup, hk]
+  | cons p t ih =>
+    obtain ⟨k0, v0⟩ := p
+    by_cases e : k0 = k
+    · subst e; simp [tinsert, tlookup, hk]
+    · simp only [tinsert, if_neg e, tlookup]
+      by_cases e' : k0 = k'
+      · simp [e']
+      · simp [e', ih]
+
+theorem tinsert_keys {α : Type} {k : Nat} (v : α) {l : List (Nat × α)} (h : k ∈ l.map Prod.fst) :
+    (tinsert k v l).map Prod.fst = l.map Prod.fst := by
+  induction l with
+  | nil => simp at h
+  | cons p t ih =>
+    obtain ⟨k0, v0⟩ := p
+    by_cases e : k0 = k
+    · simp [tinsert, e]
+    · have : k ∈ t.map Prod.fst := by
+        simp only [List.map_cons, List.mem_cons] at h
+        rcases h with h | h
+        · exact absurd h.symm e
+        · exact h
+      simp [tinsert, e, ih this]
+
+/-- the retained past epochs are the last `min P (epoch - e0)` epoch numbers (`e0`: the epoch the store started in) -/
+def PastOK (P e0 : Nat) (s : Store) : Prop :=
+  e0 ≤ s.epoch ∧
+  s.pastTrees.map Prod.fst = List.range' (s.epoch - min P (s.epoch - e0)) (min P (s.epoch - e0))
+
+theorem pastOK_init (P e0 : Nat) : PastOK P e0 { epoch := e0, cur := [], pastTrees := [] } := by
+  simp [PastOK]
+
+theorem pastOK_advance {P e0 : Nat} {s : Store} (h : PastOK P e0 s) : PastOK P e0 (advance P s) := by
+  obtain ⟨h0, hk⟩ := h
+  refine ⟨by simp only [advance]; omega, ?_⟩
+  have hlen : s.pastTrees.length = min P (s.epoch - e0) := by
+    have := congrArg List.length hk
+    simpa using this
+  simp only [advance, addPast]
+  by_cases p0 : P = 0
+  · subst p0
+    simp only [if_true]
+    rw [hk]; simp
+  · rw [if_neg p0]
+    by_cases full : s.pastTrees.length ≥ P
+    · rw [if_pos full]
+      have hm : min P (s.epoch - e0) = P := by omega
+      have hm' : min P (s.epoch + 1 - e0) = P := by omega
+      rw [List.map_append, List.map_take, List.map_drop, hk, hm, hm']
+      simp only [List.map_cons, List.map_nil]
+      rw [List.drop_range', List.take_range'_of_length_le (by omega)]
+      obtain ⟨q, rfl⟩ : ∃ q, P = q + 1 := ⟨P - 1, by omega⟩
+      rw [List.range'_concat]
+      congr 2 <;> omega
+    · rw [if_neg full]
+      have hm : min P (s.epoch - e0) = s.epoch - e0 := by omega
+      have hm' : min P (s.epoch + 1 - e0) = s.epoch - e0 + 1 := by omega
+      rw [List.map_append, hk, hm, hm']
+      simp only [List.map_cons, List.map_nil]
+      rw [List.range'_concat]
+      congr 2 <;> omega
+
+/-- **the past-epoch window**: the secrets of epoch `m` are gone iff `m` is more than `P` epochs back
+    (or from before the store existed) -/
+theorem treeFor_none_iff {P e0 : Nat} {s : Store} (h : PastOK P e0 s) (m : Nat) :
+    treeFor s m = none ↔ m < s.epoch ∧ (s.epoch - m > P ∨ m < e0) := by
+  obtain ⟨h0, hk⟩ := h
+  unfold treeFor
+  by_cases c : m < s.epoch
+  · rw [if_pos c, tlookup_none_iff, hk, List.mem_range'_1]
+    constructor
+    · intro hn; exact ⟨c, by omega⟩
+    · intro ⟨_, hh⟩; omega
+  · rw [if_neg c]; simp [c]
+
+theorem pastOK_setTree {P e0 : Nat} {s : Store} (h : PastOK P e0 s) {m : Nat} {t0 : Tree} (hm : treeFor s m = some t0)
+    (t : Tree) : PastOK P e0 (setTree s m t) := by
+  unfold setTree
+  by_cases c : m < s.epoch
+  · rw [if_pos c]
+    refine ⟨h.1, ?_⟩
+    simp only
+    have : m ∈ s.pastTrees.map Prod.fst := by
+      unfold treeFor at hm; rw [if_pos c] at hm
+      by_cases hn : m ∈ s.pastTrees.map Prod.fst
+      · exact hn
+      · rw [(tlookup_none_iff m _).mpr hn] at hm; cases hm
+    rw [tinsert_keys t this]; exact h.2
+  · rw [if_neg c]; exact h
+
+theorem mlsRecv_epoch (T F : Nat) (s : Store) (m sender g : Nat) : (mlsRecv T F s m sender g).1.epoch = s.epoch := by
+  unfold mlsRecv
+  split
+  · rfl
+  · simp only
+    split
+    · unfold setTree; split <;> rfl
+    · rfl
+
+theorem pastOK_mlsRecv {P e0 : Nat} {s : Store} (h : PastOK P e0 s) (T F m sender g : Nat) :
+    PastOK P e0 (mlsRecv T F s m sender g).1 := by
+  unfold mlsRecv
+  split
+  · exact h
+  · rename_i t ht
+    simp only
+    split
+    · exact pastOK_setTree h ht _
+    · exact h
 
 end MdkVerif.Ratchet
